@@ -12,7 +12,7 @@ import eqlgen as G
 from core import Case
 
 PID = "C10"
-LEAN_MODULES = ["KrroodVerif.Props.C10", "KrroodVerif.Props.C10Q", "KrroodVerif.Props.C09Lazy"]
+LEAN_MODULES = ["KrroodVerif.Props.C10", "KrroodVerif.Props.C10Q", "KrroodVerif.Props.C10N", "KrroodVerif.Props.C09Lazy"]
 THEOREMS = [
     "KrroodVerif.Eql.C10_trace_vis",
     "KrroodVerif.Eql.C10_trace_rows",
@@ -55,6 +55,15 @@ THEOREMS = [
     "KrroodVerif.Eql.C10Q_exists_streaming_var",
     "KrroodVerif.Eql.C10Q_pull_in_range",
     "KrroodVerif.Eql.C10Q_pulled_le_domain",
+    "KrroodVerif.Eql.C10N_extends",
+    "KrroodVerif.Eql.C10N_extends_query",
+    "KrroodVerif.Eql.C10N_trace_vis",
+    "KrroodVerif.Eql.C10N_stream_cells",
+    "KrroodVerif.Eql.C10N_trace_rows",
+    "KrroodVerif.Eql.C10N_query_vis",
+    "KrroodVerif.Eql.C10N_rows",
+    "KrroodVerif.Eql.C10N_prefix",
+    "KrroodVerif.Eql.C10N_pulled_mono",
 ]
 MODEL_FUNCTION = ("Eql.traceQuery / Eql.traceE / Eql.uptoRow / Eql.pulled (Model/EqlTrace.lean); Eql.traceExistsRoot / "
                   "Eql.traceForAllRoot (Model/EqlTraceQ.lean)")
